@@ -419,6 +419,55 @@ pub struct Node {
     pub key: [u8; 32],
     pub svc_live: Arc<AtomicUsize>,
     pub snapshot: Vec<PeerId>,
+    /// second, synchronously drained subscription (exact change-log checks)
+    pub sync_rx: Mutex<tokio::sync::broadcast::Receiver<PeerEvent>>,
+    /// state reconstructed from `sync_snapshot` + all events drained so far
+    pub sync_state: Mutex<std::collections::BTreeSet<PeerId>>,
+    pub cfg: NodeCfg,
+}
+
+#[derive(Debug)]
+pub enum DrainEnd {
+    Empty,
+    Closed,
+    Lagged(u64),
+}
+
+impl Node {
+    /// Drain the synchronous subscription; applies the events to `sync_state` and returns them.
+    pub fn drain(&self) -> (Vec<PeerEvent>, DrainEnd, Vec<String>) {
+        let mut rx = self.sync_rx.lock().unwrap();
+        let mut st = self.sync_state.lock().unwrap();
+        let mut evs = Vec::new();
+        let mut errs = Vec::new();
+        let end = loop {
+            match rx.try_recv() {
+                Ok(ev) => {
+                    match &ev {
+                        PeerEvent::NewPeer(p) => {
+                            if !st.insert(*p) {
+                                errs.push(format!("NewPeer({}) while already present", pid_hex(p)));
+                            }
+                        }
+                        PeerEvent::LostPeer(p, _) => {
+                            if !st.remove(p) {
+                                errs.push(format!("LostPeer({}) while not present", pid_hex(p)));
+                            }
+                        }
+                    }
+                    evs.push(ev);
+                }
+                Err(tokio::sync::broadcast::error::TryRecvError::Empty) => break DrainEnd::Empty,
+                Err(tokio::sync::broadcast::error::TryRecvError::Closed) => break DrainEnd::Closed,
+                Err(tokio::sync::broadcast::error::TryRecvError::Lagged(n)) => break DrainEnd::Lagged(n),
+            }
+        };
+        (evs, end, errs)
+    }
+
+    pub fn replayed(&self) -> Vec<PeerId> {
+        self.sync_state.lock().unwrap().iter().copied().collect()
+    }
 }
 
 #[derive(Clone, Debug)]
@@ -507,6 +556,7 @@ impl World {
         );
         let (rx, snapshot) = net.subscribe()?;
         spawn_event_logger(idx, self.log.clone(), rx);
+        let (sync_rx, sync_snapshot) = net.subscribe()?;
         Ok(Node {
             idx,
             net,
@@ -515,6 +565,9 @@ impl World {
             key: cfg.key,
             svc_live: live,
             snapshot,
+            sync_rx: Mutex::new(sync_rx),
+            sync_state: Mutex::new(sync_snapshot.into_iter().collect()),
+            cfg,
         })
     }
 
